@@ -74,15 +74,44 @@ pub fn check_lines(lines: &[LogicalLine], tokens: &[Token], well_formed: bool) -
     Ok((lines.len(), children))
 }
 
+/// directive / comment sub-alphabet, enumerated exhaustively (how directive-only conditional
+/// blocks, trailing comments and code interleave is where tokens get lost)
+const DIRECTIVE_ALPHABET: &[&str] = &["{$IFDEF A}", "{$ELSE}", "{$ENDIF}", "{$R+}", "// c\n", "{c}", "a", ";", "begin", "end"];
+const EXH_BATCH: u64 = 500;
+
+fn exh_total(max_len: u32) -> u64 {
+    (1..=max_len).map(|l| (DIRECTIVE_ALPHABET.len() as u64).pow(l)).sum()
+}
+
+/// the i-th sequence in length-then-lexicographic order
+fn exh_sequence(mut i: u64, max_len: u32) -> String {
+    let n = DIRECTIVE_ALPHABET.len() as u64;
+    let mut len = 1;
+    while len <= max_len && i >= n.pow(len) {
+        i -= n.pow(len);
+        len += 1;
+    }
+    let mut s = String::new();
+    for k in 0..len {
+        let lex = DIRECTIVE_ALPHABET[(i % n) as usize];
+        i /= n;
+        if k > 0 && !s.ends_with('\n') {
+            s.push(' ');
+        }
+        s.push_str(lex);
+    }
+    s
+}
+
 impl Prop for C14 {
     fn id(&self) -> &'static str {
         "C14"
     }
     fn cases(&self, ctx: &Ctx) -> u64 {
-        ctx.tier.pick(2500, 60_000)
+        ctx.tier.pick(2500, 60_000) + exh_total(ctx.tier.pick(4, 6)).div_ceil(EXH_BATCH)
     }
     fn rule(&self) -> &'static str {
-        "DelphiLogicalLineParser.parse(DelphiLexer.lex(x)) observed at the quiescent point after parsing; universal clauses (non-empty lines, strictly increasing in-range indices, every token covered, exactly once without conditional directives) on all generators; parent and end-of-file clauses on grammar programs (all decorated layouts incl. directives wrapping statements) and seeds; hook: parser passes <= conditional branches + 1. Non-trivial: >= 3 lines and >= 1 child line or directive; distinct by hash of the token-kind sequence."
+        "DelphiLogicalLineParser.parse(DelphiLexer.lex(x)) observed at the quiescent point after parsing; universal clauses (non-empty lines, strictly increasing in-range indices, every token covered, exactly once without conditional directives) on all generators, and on every sequence up to length 4 (quick) / 6 (thorough) over a 10-lexeme directive/comment alphabet ({$IFDEF A} {$ELSE} {$ENDIF} {$R+} // c {c} a ; begin end); parent and end-of-file clauses on grammar programs (all decorated layouts incl. directives wrapping statements) and seeds; hook: parser passes <= conditional branches + 1. Non-trivial: >= 3 lines and >= 1 child line or directive; distinct by hash of the token-kind sequence."
     }
     fn floor(&self, tier: Tier) -> u64 {
         tier.pick(5_000, 100_000)
@@ -90,6 +119,30 @@ impl Prop for C14 {
     fn run_case(&self, ctx: &Ctx, idx: u64) -> CaseOut {
         let mut out = CaseOut::default();
         let mut rng = Rng::derive(ctx.seed, "C14", idx);
+        let max_len = ctx.tier.pick(4, 6);
+        let exh_cases = exh_total(max_len).div_ceil(EXH_BATCH);
+        if idx < exh_cases {
+            let total = exh_total(max_len);
+            let start = idx * EXH_BATCH;
+            let end = (start + EXH_BATCH).min(total);
+            for i in start..end {
+                let input = exh_sequence(i, max_len);
+                out.evals += 1;
+                out.count("exhaustive.directive-alphabet");
+                if let Ok(p) = exec::lex_parse(&input, exec::step_budget(input.len())) {
+                    if let Err((class, detail)) = check_lines(&p.lines, &p.tokens, false) {
+                        out.violate("C14", &class, format!("[exhaustive directive/comment sequence] {detail}"), &input, None);
+                    }
+                    if p.tokens.len() >= 4 {
+                        out.nontrivial.push(rng::hash_str(&input));
+                    }
+                }
+            }
+            if end == total {
+                out.count("exhaustive_complete");
+            }
+            return out;
+        }
         for k in 0..30 {
             let mut odd_after: Vec<String> = vec![];
             let (input, kind, wf) = if rng.bool() {
